@@ -387,3 +387,118 @@ def row28_cases(rng):
             out.append(structured_case(rng, "B", ("child", "sibling", bad), iface))
             out.append(structured_case(rng, "B", (bad, "parent", "child"), iface))
     return out
+
+
+# --------------------------------------------------------------------------------------------------
+# pre-histories of the units / ownership API (the part of a script after the pseudo-command `ops`)
+
+HISTORY_OPS = ["add", "add", "remove_i", "remove_n", "remove_p", "remove_p_twin", "remove_all", "take_i", "take_n",
+               "replace_i", "replace_n", "replace_p", "replace_p_twin", "destroy", "setunits", "setunits"]
+
+
+def history_case(rng, allow_readd=False):
+    """a small model whose units are then moved around by 1..8 public calls; returns (label, script)"""
+    em = Emitter(rng)
+    b, m = em.b, em.m
+    models = [m, em.other_model()]
+    if rng.random() < 0.3:
+        models.append(b.model("third"))
+    pool = []          # (slot, name)
+
+    def mk(name, child):
+        u = b.units(name) if name is not None else b.units()
+        if child:
+            b.addunit_ref(u, S(child))
+        pool.append((u, name or ""))
+        return u
+    for _ in range(rng.choice([2, 2, 3])):      # equal but distinct objects
+        mk("ua", "second")
+    mk("ua", "metre")                          # same name, not equal
+    mk("ub", None)
+    if rng.random() < 0.6:
+        mk("ub", None)
+    if rng.random() < 0.5:
+        mk(None, None)
+        mk(None, None)
+    if rng.random() < 0.4:
+        mk("second", None)
+    lists = {x: [] for x in models}            # python mirror (identity only; steers the generator, decides nothing)
+    for u, _ in pool:
+        r = rng.random()
+        if r < 0.45:
+            b.addunits(m, u)
+            lists[m].append(u)
+        elif r < 0.7:
+            x = rng.choice(models[1:])
+            b.addunits(x, u)
+            lists[x].append(u)
+    # a small tree
+    comps = []
+    for i in range(rng.choice([1, 2, 3])):
+        c = b.component("c%d" % i)
+        b.addcomponent(rng.choice(comps) if comps and rng.random() < 0.5 else m, c)
+        comps.append(c)
+    variables = []
+    for i in range(rng.choice([1, 2, 3, 4])):
+        v = b.variable("v%d" % i)
+        b.addvariable(rng.choice(comps), v)
+        variables.append(v)
+        r = rng.random()
+        if r < 0.55:
+            b.setunits_p(v, rng.choice(pool)[0])
+        elif r < 0.9:
+            b.setunits_n(v, S(rng.choice(["ua", "ub", "zz", "second", ""])))
+    b.lines.append("ops")
+    alive = list(models)
+    kinds = []
+    for _ in range(rng.randint(1, 8)):
+        k = rng.choice(HISTORY_OPS)
+        x = rng.choice(alive)
+        u = rng.choice(pool)[0]
+        if k == "add":
+            if u in lists[x] and not allow_readd:
+                continue
+            b.addunits(x, u)
+            for y in alive:
+                if y != x and u in lists[y]:
+                    lists[y].remove(u)
+            lists[x].append(u)
+        elif k == "remove_i":
+            i = rng.choice([0, 0, 1, 2, 5])
+            b.removeunits_i(x, i)
+            if i < len(lists[x]):
+                lists[x].pop(i)
+        elif k == "remove_n":
+            b.removeunits_n(x, S(rng.choice(["ua", "ub", "zz", ""])))
+        elif k == "remove_p":
+            b.removeunits_p(x, u)
+            if u in lists[x]:
+                lists[x].remove(u)
+        elif k == "remove_p_twin":       # an equal but distinct object of one that is listed
+            b.removeunits_p(x, pool[rng.randrange(min(3, len(pool)))][0])
+        elif k == "remove_all":
+            b.removeallunits(x)
+            lists[x] = []
+        elif k == "take_i":
+            i = rng.choice([0, 1, 3])
+            b.takeunits_i(x, i)
+            if i < len(lists[x]):
+                lists[x].pop(i)
+        elif k == "take_n":
+            b.takeunits_n(x, S(rng.choice(["ua", "ub", "zz"])))
+        elif k == "replace_i":
+            b.replaceunits_i(x, rng.choice([0, 1, 4]), u)
+        elif k == "replace_n":
+            b.replaceunits_n(x, S(rng.choice(["ua", "ub", "zz"])), u)
+        elif k in ("replace_p", "replace_p_twin"):
+            old = rng.choice(lists[x]) if (lists[x] and k == "replace_p") else pool[rng.randrange(min(3, len(pool)))][0]
+            b.replaceunits_p(x, old, u)
+        elif k == "destroy":
+            if x == m or len(alive) < 2:
+                continue
+            b.release(x)
+            alive.remove(x)
+        elif k == "setunits":
+            b.setunits_p(rng.choice(variables), u)
+        kinds.append(k)
+    return ("H:" + ",".join(kinds), b.text())
